@@ -488,6 +488,10 @@ func c20Blank(c *Ctx, r *RNG) {
 				if w.wtype != keep.typ {
 					viol(i, "the inner watcher's Watch did not get the *dials.Type dials gave the Blank", fmt.Sprint(keep.typ), fmt.Sprint(w.wtype))
 				}
+				if w.wctx == nil || w.wctx.Err() != nil {
+					// the SetSource call's own context has been cancelled by now; the Config context is alive
+					viol(i, "the inner watcher's Watch context ended with the SetSource call (it must live as long as the Blank's own Watch context)", "live context", fmt.Sprint(w.wctx.Err()))
+				}
 				a := o.ID*1000 + 1 + r.Intn(900)
 				uctx, ucancel := context.WithTimeout(ctx, 3*time.Second)
 				uerr := w.args.BlockingReportNewValue(uctx, c20BValue(a, false))
